@@ -131,7 +131,7 @@ def it_of(ctx, v):
     if t is Agg and v.ty in ('Range', 'std::ops::Range', 'core::ops::Range'):
         a, b = v.fields
         if is_sym(a) or is_sym(b):
-            raise Unsupported('symbolic range iteration')
+            return Agg('It:range', None, (a, b, None))       # lazily unrolled; every step is a (forking) comparison
         return it_seq(list(range(a, b)))
     if t in (bytes,):
         return it_seq(list(v))
@@ -146,6 +146,16 @@ def it_next(ctx, it):
         items, i, j = f
         if i < j:
             return some(items[i]), Agg(k, None, (items, i + 1, j))
+        return NONE, it
+    if k == 'It:range':
+        cur, end, signed = f
+        w = cur.size() if is_sym(cur) else end.size()
+        lt = binop('Lt', cur, end, w, signed is not False)
+        if ctx.branch(lt):
+            nxt = binop('Add', cur, 1, w, signed is not False)
+            if is_sym(nxt):
+                nxt = z3.simplify(nxt)
+            return some(cur), Agg(k, None, (nxt, end, signed))
         return NONE, it
     if k == 'It:map':
         o, inner = it_next(ctx, f[0])
@@ -1076,6 +1086,9 @@ def install(prog):
         it = D(a[0])
         if not (type(it) is Agg and it.ty.startswith('It:')):
             raise Unsupported('next on %r (%s)' % (it, callee))
+        if it.ty == 'It:range' and it.fields[2] is None:
+            m = re.search(r'Range<([iu]\w+)>', callee)
+            it = Agg(it.ty, None, (it.fields[0], it.fields[1], bool(m and m.group(1).startswith('i'))))
         if callee.endswith('next_back'):
             o, new = it_next(ctx, Agg('It:rev', None, (it,)))
             store_it(a[0], new.fields[0])
